@@ -90,8 +90,8 @@ CHECKS = {
                 budget=dict(quick=300, thorough=3000),
                 rule="differential: for every valid text x pointer path, GetOnDemand succeeds <=> AtPointer on the fully parsed document resolves (and the reference lookup agrees); on success the slice lies inside the input and parses to the identical value, ParseOnDemand yields it; on failure error != 0, slice empty, ParseOnDemand errors and stays null. Evaluations count (text,path) pairs."),
     "C11": dict(level="exploration", engine="ondemand",
-                jobs=lambda t: J("ondemand", "asan-hsw", ["--prop", "C11"]) + J("ondemand", "prod-hsw", ["--prop", "C11"]) +
-                (J("ondemand", "asan-wsm", ["--prop", "C11"]) + J("ondemand", "prod-wsm", ["--prop", "C11"]) if t == "thorough" else []),
+                jobs=lambda t: J("ondemand", "asan-hsw", ["--prop", "C11"]) + J("ondemand", "prod-hsw", ["--prop", "C11"]) + J("ondemand", "prod-wsm", ["--prop", "C11"]) +
+                (J("ondemand", "asan-wsm", ["--prop", "C11"]) + J("ondemand", "prod-dyn", ["--prop", "C11"]) if t == "thorough" else []),
                 rule="every text (valid or not, incl. empty and every truncation) x path: GetOnDemand/ParseOnDemand on an exact-size heap block (ASan) and on a buffer ending on the last mapped byte / starting right after a PROT_NONE page (production build): no fault; success => slice is a sub-range of the input and offset <= len; failure => slice empty. Evaluations count (text,path,placement) calls; non-trivial: text of >= 2 bytes."),
     "C19": dict(level="exploration", engine="schemaenum", budget=dict(quick=180, thorough=3000),
                 jobs=lambda t: J("schemaenum", "prod-hsw", []) + J("schemaenum", "asan-hsw", [], fills=[0x06, 0x0c] if t == "quick" else FILLS_T),
